@@ -862,16 +862,21 @@ func (fx *fnExec) evalCall(x ECall, env *SpecEnv) SV {
 		sv := fx.evalSpec(x.Args[0], ne)
 		iv := fx.evalSpec(x.Args[1], env)
 		return fx.specIndex(sv, iv, ne)
-	case "heap_unchanged_except", "only_fresh_modified", "entry_unchanged_except":
+	case "heap_unchanged_except", "only_fresh_modified", "entry_unchanged_except", "heap_unchanged_except_elems":
 		// frame over all heaps whose name starts with the given prefix
 		pre, ok := x.Args[0].(EStr)
 		if !ok {
 			panic(vcErr("%s: first argument must be a heap-name prefix string", x.Fun))
 		}
 		var except []Term
+		var exceptSl []Sl // heap_unchanged_except_elems: only the elements s[0:len(s)] of these slices may differ
 		for _, a := range x.Args[1:] {
 			v := fx.evalSpec(a, env)
 			if sl, ok := v.(Sl); ok {
+				if x.Fun == "heap_unchanged_except_elems" {
+					exceptSl = append(exceptSl, sl)
+					continue
+				}
 				except = append(except, sl.Arr)
 			} else {
 				except = append(except, fx.sc(v, SInt))
@@ -917,6 +922,10 @@ func (fx *fnExec) evalCall(x ECall, env *SpecEnv) SV {
 				// two-level heap (slice elements): state the frame element-wise, no equalities between rows
 				is, _, _ := arrParts(es)
 				i := Term{"i$q", is}
+				for _, sl := range exceptSl {
+					in := tAnd(tEq(r, sl.Arr), app(SBool, "<=", sl.Off, i), app(SBool, "<", i, app(SInt, "+", sl.Off, sl.Len)))
+					guard = tAnd(guard, tNot(in))
+				}
 				body := tImp(guard, tEq(tSel(tSel(hc, r), i), tSel(tSel(ho, r), i)))
 				cs = append(cs, Term{fmt.Sprintf("(forall ((r$q Int) (i$q %s)) (! %s :pattern ((select (select %s r$q) i$q))))", is, body.S, hc.S), SBool})
 				continue
